@@ -97,6 +97,14 @@ Definition e2e_run (c : e2e_case) : jv :=
 
 
 # ------------------------------------------------------------------ cases
+BROAD_POOL = [
+    ([r'(?:\S+ \S+ )?(\w+)(?: (\d+))?'], None),
+    ([r'^\d{4}-\d{2}-\d{2} \S+ (\w+)', r'(\w+)'], None),
+    ([r'.*?(\d+)?$'], None),
+    ([r'.*(a)'], 'a'),
+]
+
+
 def gen_case(rng, base, idx):
     d = os.path.join(base, f"e2e{idx}")
     r = rng.random()
@@ -120,13 +128,18 @@ def gen_case(rng, base, idx):
         stamps = [s for s in stamps if s is not None]
         if stamps:
             from datetime import datetime, timedelta
-            s = rng.choice(stamps) + rng.choice([-1, 0, 0, 1])
+            s = rng.choice(stamps[1:] or stamps) + rng.choice([-1, 0, 0, 1])
             cur = datetime.fromordinal(s // 86400) + timedelta(
                 seconds=s % 86400, hours=24)
             cons[0] = {'current': cur.strftime(G.TS_FMT), 'days': 0,
                        'hours': 24}
     defs = RC.gen_defs(rng, 3, nsimple=rng.choice([1, 2, 3]), nseq=0,
                        allow_cons=True)
+    if rng.random() < 0.6:
+        # one definition that matches most lines (dated or not), so that
+        # skipped / gated lines show in the results
+        pats, hint = rng.choice(BROAD_POOL)
+        defs[0]['patterns'], defs[0]['hint'] = list(pats), hint
     for dd in defs:
         # own constraints never the file-level object (C08's business)
         dd['constraints'] = [c for c in dd['constraints'] if c != 0]
@@ -271,7 +284,7 @@ def e2e_cases(chk, n=50):
         vals = RC.Interner()
         cases.append(coq_case(recipe, data, gz, vals))
         if obs['exc']:
-            wants.append([-1, obs['exc'] and 0])
+            wants.append([-9])       # the model never raises here
             meta['impl'] = None
         else:
             want = impl_want(recipe, obs, vals)
